@@ -198,6 +198,25 @@ static carquet_status_t encode_levels(
     return CARQUET_OK;
 }
 
+/* Accumulate the raw levels of one batch; a page carries exactly one encoded
+ * block per level kind, so encoding happens once, at finalize.  A NULL levels
+ * pointer means "every row at `fill`" (all present / no repetition). */
+static carquet_status_t append_raw_levels(
+    carquet_buffer_t* raw,
+    const int16_t* levels,
+    int64_t count,
+    int16_t fill) {
+
+    if (levels) {
+        return carquet_buffer_append(raw, levels, (size_t)count * sizeof(int16_t));
+    }
+    for (int64_t i = 0; i < count; i++) {
+        carquet_status_t status = carquet_buffer_append(raw, &fill, sizeof(fill));
+        if (status != CARQUET_OK) return status;
+    }
+    return CARQUET_OK;
+}
+
 /* ============================================================================
  * Statistics Tracking
  * ============================================================================
@@ -307,17 +326,17 @@ carquet_status_t carquet_page_writer_add_values(
         writer->num_nulls += (num_values - num_non_null);
     }
 
-    /* Accumulate the raw levels of the batch: a page carries exactly one encoded
-     * block per level kind, so encoding happens once, at finalize. */
-    if (writer->max_def_level > 0 && def_levels) {
-        carquet_status_t lvl_status = carquet_buffer_append(
-            &writer->def_levels_buffer, def_levels, (size_t)num_values * sizeof(int16_t));
+    /* Accumulate definition levels (absent levels: every row is present) */
+    if (writer->max_def_level > 0) {
+        carquet_status_t lvl_status = append_raw_levels(
+            &writer->def_levels_buffer, def_levels, num_values, writer->max_def_level);
         if (lvl_status != CARQUET_OK) return lvl_status;
     }
 
-    if (writer->max_rep_level > 0 && rep_levels) {
-        carquet_status_t lvl_status = carquet_buffer_append(
-            &writer->rep_levels_buffer, rep_levels, (size_t)num_values * sizeof(int16_t));
+    /* Accumulate repetition levels (absent levels: every row starts a record) */
+    if (writer->max_rep_level > 0) {
+        carquet_status_t lvl_status = append_raw_levels(
+            &writer->rep_levels_buffer, rep_levels, num_values, 0);
         if (lvl_status != CARQUET_OK) return lvl_status;
     }
 
